@@ -14,8 +14,8 @@ open Atomman Atomman.C09 Atomman.Gen
     parse cp…                  → value | err:value        `uc.parse(str)`  under the state scalings
     parseu cp…                 → value | err:value        `uc.parse(str)` incl. the 'scaled' rule
     parsenone                  → 1                        `uc.parse(None)`
-    track cp…                  → v m kg s C K | err:value SI value and dimension (tracked algebra)
-    dim cp…                    → m kg s C K ival|- | err  dimension analysis alone (`dimAlg`)
+    track cp…                  → v m kg s C K | err:value SI value and (rational) dimension (`trackAlgR`)
+    dim cp…                    → m kg s C K qval|- | err  dimension analysis alone (`qdimAlg`; exponents `n` or `p/q`)
     unit cp…                   → value | err:value        `uc.unit[name]` under the state scalings
     set n x1…xn cp…            → n values | err           `uc.set_in_units([x…], str)`
     get n x1…xn cp…            → n values | err           `uc.get_in_units([x…], str)`
@@ -36,8 +36,12 @@ open Atomman Atomman.C09 Atomman.Gen
     tableok                    → 0/1
     nunits / uname i           → count / cp,cp,…          names of the generated unit table
     halfnames                  → cp,… cp,… …              names outside the table (half-integral dimension)
+  Rational exponents: the driver runs `numAlgR` with `rpow := ratRpow` — exact when the power is rational, otherwise
+  correct to about 2^-200 relative (the laws `RpowLaws` hold for it to that accuracy, as `r·r = x` does for the double
+  square root handed to `reset`).  A value obtained that way is marked inexact in the guard pass; used as an exponent
+  it makes the reply `err:size` (an irrational exponent is outside the model).
   Size guard (driver only, not part of the proved model): every numeric request is first evaluated over `gvAlg`,
-  a copy of `numAlg` in which a value whose numerator/denominator would exceed ~2·10^5 bits, a power with an
+  a copy of `numAlgR` in which a value whose numerator/denominator would exceed ~2·10^5 bits, a power with an
   exponent beyond 4096 or a literal with a decimal exponent beyond 5000 is replaced by the token `big` (propagated by
   every operation; dividing by a zero *value* still fails).  `big` as result → reply `err:size` (the harness does not compare such cases);
   no value → `err:value`; a value → no `big` occurred anywhere, and the request is evaluated by the proved `numAlg`,
@@ -85,44 +89,110 @@ def tree? : Nat → List String → Option (Expr × List String)
       else none
     | [] => none
 
-def rAlg : Alg Rat := numAlg ratToInt?
+/-! #### `rpow` at `K := Rat`: exact when the result is rational, else correct to ~2^-200 relative -/
 
-/-- guarded values: a rational of moderate size, or "too big to write down". -/
+/-- Newton iteration for the integer `d`-th root, started above the root. -/
+def irootGo (d n : Nat) : Nat → Nat → Nat
+  | 0, x => x
+  | fuel + 1, x =>
+    let y := ((d - 1) * x + n / x ^ (d - 1)) / d
+    if y < x then irootGo d n fuel y else x
+
+/-- `⌊n^(1/d)⌋` (`d ≥ 1`). -/
+def iroot (d n : Nat) : Nat :=
+  if n = 0 then 0 else if d ≤ 1 then n else
+  irootGo d n (n.log2 + 64) (2 ^ (n.log2 / d + 1))
+
+def rpowBits : Nat := 200
+
+/-- `x ^ q` for positive `x` and non-integer `q`: `(value, exact?)`.  `x ^ q.num` is formed exactly; when its numerator
+    and denominator are perfect `q.den`-th powers the result is the exact rational (`4^0.5 = 2`, `(1/8)^(2/3) = 1/4`);
+    otherwise `⌊(a·2^(d·k)/b)^(1/d)⌋ / 2^k` with `k` chosen so that the root has about `rpowBits` bits. -/
+def ratRpowE (x : Rat) (q : Rat) : Rat × Bool :=
+  let y := powInt x q.num
+  let d := q.den
+  let a := y.num.natAbs
+  let b := y.den
+  let ra := iroot d a
+  let rb := iroot d b
+  if ra ^ d = a ∧ rb ^ d = b then (mkRat ra rb, true)
+  else
+    let k : Int := (rpowBits : Int) + ((b.log2 : Int) - (a.log2 : Int)) / (d : Int) + 2
+    if 0 ≤ k then
+      let r := iroot d (a * 2 ^ (d * k.toNat) / b)
+      (mkRat r (2 ^ k.toNat), false)
+    else
+      let r := iroot d (a / (b * 2 ^ (d * (-k).toNat)))
+      ((r : Rat) * ((2 : Rat) ^ (-k).toNat), false)
+
+def ratRpow (x : Rat) (q : Rat) : Rat := (ratRpowE x q).1
+
+/-- the algebra the driver runs: `numAlgR` (every theorem about `numAlg` applies to it by `parse_rpow_extends`). -/
+def rAlg : Alg Rat := numAlgR (fun q => some q) ratRpow
+
+def tAlg : Alg (Rat × Q5) := trackAlgR (fun q => some q) ratRpow
+
+/-- guarded values: an exact rational of moderate size, an approximation (a non-integer power that is not rational
+    occurred below), "too big to write down", or "an inexact value was used as an exponent". -/
 inductive GV where
   | val (q : Rat)
+  | apx (q : Rat)
   | big
+  | irr
 
 def qsize (q : Rat) : Nat := q.num.natAbs.log2 + q.den.log2
 
-def gval (q : Rat) : GV := if qsize q > 200000 then .big else .val q
+def gval (exact : Bool) (q : Rat) : GV := if qsize q > 200000 then .big else if exact then .val q else .apx q
+
+/-- `(value, exact?)` of a guarded value that is a number. -/
+def GV.num? : GV → Option (Rat × Bool)
+  | .val q => some (q, true)
+  | .apx q => some (q, false)
+  | _ => none
+
+def GV.isIrr : GV → Bool
+  | .irr => true
+  | _ => false
 
 def gvAlg : Alg GV where
   mul a b :=
-    match a, b with
-    | .val x, .val y => some (gval (x * y))
+    if a.isIrr || b.isIrr then some .irr else
+    match a.num?, b.num? with
+    | some (x, ex), some (y, ey) => some (gval (ex && ey) (x * y))
     | _, _ => some .big
   div a b :=
-    match a, b with
-    | .val x, .val y => if y = 0 then none else some (gval (x / y))
-    | .big, .val y => if y = 0 then none else some .big
-    | _, .big => some .big
+    if a.isIrr || b.isIrr then some .irr else
+    match a.num?, b.num? with
+    | some (x, ex), some (y, ey) => if y = 0 then none else some (gval (ex && ey) (x / y))
+    | none, some (y, _) => if y = 0 then none else some .big
+    | _, none => some .big
   pow a b :=
+    if a.isIrr || b.isIrr then some .irr else
     match b with
     | .big => some .big
+    | .irr => some .irr
+    | .apx _ => some .irr
     | .val y =>
-      match ratToInt? y with
-      | none => none
-      | some n =>
-        match a with
-        | .big => some .big
-        | .val x =>
+      match a.num? with
+      | none => some .big
+      | some (x, ex) =>
+        if y.den = 1 then
+          let n := y.num
           if x = 0 ∧ n < 0 then none
           else if n.natAbs > 4096 ∨ (qsize x + 1) * n.natAbs > 200000 then some .big
-          else some (gval (powInt x n))
-  num m e := if e.natAbs > 5000 then some .big else some (gval (litVal m e))
+          else some (gval ex (powInt x n))
+        else if 0 < x then
+          if y.num.natAbs > 4096 ∨ y.den > 4096 ∨ (qsize x + 1) * y.num.natAbs > 200000 then some .big
+          else
+            let r := ratRpowE x y
+            some (gval (ex && r.2) r.1)
+        else if x = 0 ∧ 0 < y then some (.val 0)
+        else none
+  num m e := if e.natAbs > 5000 then some .big else some (gval true (litVal m e))
 
 def isBig : Option GV → Bool
   | some .big => true
+  | some .irr => true
   | _ => false
 
 def showO (o : Option Rat) : String :=
@@ -130,7 +200,10 @@ def showO (o : Option Rat) : String :=
   | some v => showRat v
   | none => err "value"
 
-def showD (d : D5) : String := showInts [d.m, d.kg, d.s, d.c, d.k]
+/-- a rational exponent: `n` when integral, else `p/q`. -/
+def showQ (q : Rat) : String := if q.den = 1 then toString q.num else toString q.num ++ "/" ++ toString q.den
+
+def showD (d : Q5) : String := " ".intercalate ([d.m, d.kg, d.s, d.c, d.k].map showQ)
 
 def splitCount (toks : List String) : Option (List Rat × List Char) :=
   match toks with
@@ -167,8 +240,9 @@ def splitCount2 (toks : List String) : Option (List Rat × List Char × List Cha
 def guarded (pre : Option GV) (run : Unit → String) : String :=
   match pre with
   | some .big => err "size"
+  | some .irr => err "size"
   | none => err "value"
-  | some (.val _) => run ()
+  | some _ => run ()
 
 def step (sc : Scales Rat) (toks : List String) : Scales Rat × String :=
   let env := envOf unitTable sc
@@ -190,15 +264,16 @@ def step (sc : Scales Rat) (toks : List String) : Scales Rat × String :=
   | "track" :: rest =>
     match chars? rest with
     | some cs =>
-      match parse (trackAlg ratToInt?) (envTracked unitTable) cs with
-      | some (v, d) => (sc, showRat v ++ " " ++ showD d)
-      | none => (sc, err "value")
+      (sc, guarded (parse gvAlg (fun n => (envSI (K := Rat) unitTable n).map GV.val) cs) fun _ =>
+        match parse tAlg (envTrackedQ unitTable) cs with
+        | some (v, d) => showRat v ++ " " ++ showD d
+        | none => err "value")
     | none => (sc, err "format")
   | "dim" :: rest =>
     match chars? rest with
     | some cs =>
-      match parse dimAlg (envDim unitTable) cs with
-      | some dv => (sc, showD dv.dim ++ " " ++ (match dv.ival with | some n => toString n | none => "-"))
+      match parse qdimAlg (envQDim unitTable) cs with
+      | some dv => (sc, showD dv.dim ++ " " ++ (match dv.qval with | some q => showQ q | none => "-"))
       | none => (sc, err "value")
     | none => (sc, err "format")
   | "unit" :: rest =>
